@@ -66,7 +66,39 @@ func checkC12(c *km.Ctx) {
 	}
 
 	// ---- the client id value of the token handler: phi/merge of BasicAuth#0, form client_id, unescaped
-	isClientID := func(v ssa.Value) bool { return derivesFromClientID(v, 0) }
+	// a value of the request may reach the handler through a helper that collects the credentials (possibly in a
+	// struct): every place the value can come from has to satisfy pred
+	var leafAll func(v ssa.Value, pred func(ssa.Value) bool, d int) bool
+	leafAll = func(v ssa.Value, pred func(ssa.Value) bool, d int) bool {
+		v = km.Unwrap(v)
+		if pred(v) {
+			return true
+		}
+		if d > 4 {
+			return false
+		}
+		if p, ok := v.(*ssa.Phi); ok {
+			for _, e := range p.Edges {
+				if !leafAll(e, pred, d+1) {
+					return false
+				}
+			}
+			return len(p.Edges) > 0
+		}
+		lfs := s.Leaves(c.F.NewConj(), nil, nil, v, nil, 2)
+		if len(lfs) == 0 || (len(lfs) == 1 && lfs[0].Val == v) {
+			return false
+		}
+		for _, lf := range lfs {
+			if !leafAll(lf.Val, pred, d+1) {
+				return false
+			}
+		}
+		return true
+	}
+	isClientID := func(v ssa.Value) bool {
+		return leafAll(v, func(x ssa.Value) bool { return derivesFromClientID(x, 0) }, 0)
+	}
 
 	// ---- R-C12-2: flag
 	var flag *ssa.Phi
@@ -123,7 +155,7 @@ func checkC12(c *km.Ctx) {
 						}
 					}
 					a := km.CallArgs(x.Common()) // state, clientId, verifier, code
-					verifierOK := isFormGetThrough(a[2], "code_verifier")
+					verifierOK := leafAll(a[2], func(x ssa.Value) bool { return isFormGetThrough(x, "code_verifier") }, 0)
 					codeOK := km.NamedTypeOf(a[3].Type()) == typCode && isVerifiedCode(th, a[3])
 					r.Add("R-C12-2", km.FuncName(th), "flag := PKCE verifier result", posOf(c, x), "only for a client that may use PKCE; verifier from the request; code is the verified code", sprintf("canPKCE=%v verifier-from-form=%v code-is-verified=%v", canPKCE, verifierOK, codeOK), canPKCE && verifierOK && codeOK)
 				case strings.HasSuffix(name, "OpenIDConnectClientConfig).ValidClientSecret"):
